@@ -13,30 +13,36 @@
 (* with a FRESH real server that was only given that text.                 *)
 (***************************************************************************)
 EXTENDS Integers, Sequences, FiniteSets, TLC, Json
-CONSTANTS NUris, NTexts, NProbes, MaxLen, MultiChange
+CONSTANTS NUris, NTexts, NProbes, MaxLen, MultiChange,
+          TailMode      \* TRUE: notifications only, then one query as the last step (long open / change / re-open histories of one document)
 
 Uris == 1..NUris
 Texts == 1..NTexts
-VARIABLES docs, hist
-vars == <<docs, hist>>
-Init == docs = [u \in Uris |-> 0] /\ hist = <<>>
+VARIABLES docs, hist,
+          ver       \* the CLIENT's version counter of each document: 1 at every (re-)open, + 1 with every change notification.
+                    \* The server synchronises full texts, so the number must not influence anything: a re-opened document
+                    \* starts again at 1, below what the server has seen before.
+vars == <<docs, hist, ver>>
+Init == docs = [u \in Uris |-> 0] /\ hist = <<>> /\ ver = [u \in Uris |-> 0]
 
 Step(op) == hist' = Append(hist, op)
-DidOpen(u, t) == /\ docs' = [docs EXCEPT ![u] = t]
-                 /\ Step([op |-> "open", u |-> u, ts |-> <<t>>, p |-> 0, latest |-> t])
+DidOpen(u, t) == /\ docs' = [docs EXCEPT ![u] = t] /\ ver' = [ver EXCEPT ![u] = 1]
+                 /\ Step([op |-> "open", u |-> u, ts |-> <<t>>, p |-> 0, latest |-> t, v |-> 1])
 \* well-formed: a change follows an open of that document
 DidChange(u, ts) == /\ docs[u] # 0
-                    /\ docs' = [docs EXCEPT ![u] = ts[Len(ts)]]
-                    /\ Step([op |-> "change", u |-> u, ts |-> ts, p |-> 0, latest |-> ts[Len(ts)]])
-Query(kind, u, p) == /\ UNCHANGED docs
-                     /\ Step([op |-> kind, u |-> u, ts |-> <<>>, p |-> p, latest |-> docs[u]])
+                    /\ docs' = [docs EXCEPT ![u] = ts[Len(ts)]] /\ ver' = [ver EXCEPT ![u] = @ + 1]
+                    /\ Step([op |-> "change", u |-> u, ts |-> ts, p |-> 0, latest |-> ts[Len(ts)], v |-> ver[u] + 1])
+Query(kind, u, p) == /\ UNCHANGED <<docs, ver>>
+                     /\ Step([op |-> kind, u |-> u, ts |-> <<>>, p |-> p, latest |-> docs[u], v |-> 0])
+NotifOk == ~TailMode \/ Len(hist) < MaxLen - 1
+QueryOk == ~TailMode \/ Len(hist) = MaxLen - 1
 Next == /\ Len(hist) < MaxLen
-        /\ \/ \E u \in Uris, t \in Texts : DidOpen(u, t)
-           \/ \E u \in Uris, t \in Texts : DidChange(u, <<t>>)
-           \/ (MultiChange /\ \E u \in Uris, t1 \in Texts, t2 \in Texts : t1 # t2 /\ DidChange(u, <<t1, t2>>))
-           \/ \E u \in Uris, p \in 1..NProbes : Query("hover", u, p) \/ Query("definition", u, p)
-           \/ \E u \in Uris : Query("symbols", u, 0)
-           \/ \E u \in Uris, p \in 1..2 : Query("other", u, p)      \* initialize / a method the server does not implement: no effect on any document
+        /\ \/ NotifOk /\ \E u \in Uris, t \in Texts : DidOpen(u, t)
+           \/ NotifOk /\ \E u \in Uris, t \in Texts : DidChange(u, <<t>>)
+           \/ (NotifOk /\ MultiChange /\ \E u \in Uris, t1 \in Texts, t2 \in Texts : t1 # t2 /\ DidChange(u, <<t1, t2>>))
+           \/ QueryOk /\ \E u \in Uris, p \in 1..NProbes : Query("hover", u, p) \/ Query("definition", u, p)
+           \/ QueryOk /\ \E u \in Uris : Query("symbols", u, 0)
+           \/ (QueryOk /\ ~TailMode /\ \E u \in Uris, p \in 1..2 : Query("other", u, p))      \* initialize / a method the server does not implement: no effect on any document
 Spec == Init /\ [][Next]_vars
 
 \* design level: what a query is answered from is the last text set on THAT document
@@ -44,5 +50,7 @@ RECURSIVE LastSet(_,_,_)
 LastSet(h, i, u) == IF i = 0 THEN 0 ELSE IF h[i].op \in {"open", "change"} /\ h[i].u = u THEN h[i].latest ELSE LastSet(h, i - 1, u)
 C19_LatestOfRightDoc == \A i \in 1..Len(hist) : hist[i].latest = LastSet(hist, IF hist[i].op \in {"open", "change"} THEN i ELSE i - 1, hist[i].u)
 C19_DocsIsLast == \A u \in Uris : docs[u] = LastSet(hist, Len(hist), u)
+\* the version discipline of the client: within one open period the numbers only grow; a re-open restarts them
+C19_VersionsRestart == \A i \in 1..Len(hist) : hist[i].op = "open" => hist[i].v = 1
 EmitInv == Len(hist) = MaxLen => PrintT("GEN " \o ToJson(hist))
 =============================================================================
